@@ -197,7 +197,14 @@ def make_quantity(kind, rng):
         else:
             a = qq.Measurement(rng.choice([-5.0, 2.0, 4.0]), 0.5)
             b = qq.Measurement(rng.choice([3.0, -1.5]), 0.25)
-            m = a * b if rng.random() < 0.5 else a - b
+            k = rng.choice([-2, -0.5, 3, -1, 2.5])
+            rep = qq.Measurement([1.0, 2.0, 4.5], [0.5, 0.25, 0.5])
+            arr = qq.MeasurementArray([1.5, -2.0], 0.25)
+            # calculated results of every simple shape, negative factors and operands included (an uncertainty is a
+            # non-negative number whatever the sign of the factor that scales it)
+            m = rng.choice([lambda: a * b, lambda: a - b, lambda: k * a, lambda: a * k, lambda: a / k, lambda: -a,
+                            lambda: k / a, lambda: k - a, lambda: k * rep, lambda: arr[1] * k, lambda: (k * a) + b,
+                            lambda: a ** 2, lambda: qq.sqrt(abs(k) * qq.Measurement(4.0, 0.5))])()
             if kind == "derived-mc":
                 qq.set_monte_carlo_sample_size(60)
                 m.error_method = "monte-carlo"
@@ -430,6 +437,8 @@ def ok_number(x):
 
 
 def oracle_history(h):
+    if not ok_number(h["start"]["error"]):
+        return "a {} quantity ({}) starts with uncertainty {}".format(h["kind"], h["start"]["cls"], h["start"]["error"])
     for i, t in enumerate(h["trace"]):
         if t["after"].get("unreadable"):
             return "step {} {} ({}) left a quantity whose value/uncertainty cannot be read: {}".format(
@@ -559,6 +568,7 @@ def search(ctx, suspects, budget):
         if todo:
             c = todo.pop(0)
             h = replay_history(c)
+            h["seed"] = c.get("seed")
         elif time.time() - t0 > budget:
             break
         else:
